@@ -65,6 +65,7 @@ def register(reg):
                       ('property', "implies(len(left) > 0 and len(right) > 0 and not ('＄' in left), " + one('result', 'ulen(left[0]) + ulen(right[0])') + ')'),
                       ('property', one('result', 'ulen(result[0])'))])
 
+    register_walker(reg)
     EACH_ONE = 'all(all(ulen(tracks[j][k]) == ulen(tracks[j][0]) for k in range(len(tracks[j]))) for j in range(len(tracks)))'
     # any number of blocks side by side
     contract(reg, f'{F}:weld', P, {'tracks': 'arrlist[arrlist[str]]'}, ret='arrlist[str]', theories=T, varparam='tracks',
@@ -84,3 +85,38 @@ def register(reg):
                          2: ['len(out) >= 1', one('out', 'maxl + 7')]},
              ensures=[('property', one('result', 'ulen(result[0])')),
                       ('property', 'implies(len(tracks) > 0, len(result) >= 1)')])
+
+
+# --------------------------------------------------------------------------- the walker (tatsu/railroads/walker.py)
+W = 'tatsu/railroads/walker.py'
+NONEMPTY_ONE = ['len(result) >= 1', ONE.format(x='result', w='ulen(result[0])')]
+
+
+def register_walker(reg):
+    """every walk_* method returns a non-empty block of rails of one width, given that the recursive `self.walk(child)` does
+    (generic contract WALK: the dispatch of NodeWalker.walk reaches one of these methods -- behavioural subtyping, assumed)"""
+    reg.opaque_attrs[('RailWalker', 'walk')] = ('method', 'WALK')
+    reg.import_consts['ETX'] = F  # `from .railmath import ETX`
+    for attr, srt in {'level': 'int', 'baserule': 'str', 'base': 'Val', 'decorators': 'Val', 'params': 'Val', 'kwparams': 'Val',
+                      'is_lrec': 'bool', 'is_memo': 'bool'}.items():
+        reg.opaque_attrs.setdefault(('Model', attr), ('attr', srt))
+    contract(reg, 'WALK', P, {'f': 'func:WALK', 'node': 'opaque:Model'}, ret='arrlist[str]', generic=True, theories=T,
+             ensures=list(NONEMPTY_ONE), modifies=[],
+             note='generic contract of RailroadNodeWalker.walk(node): a non-empty block of rails of one display width')
+    sig = lambda p: {'self': 'opaque:RailWalker', p: 'opaque:Model'}
+    post = [('property', c) for c in NONEMPTY_ONE]
+    for meth, param in (('walk_box', 'b'), ('walk_optional', 'optional'), ('walk_closure', 'closure'),
+                        ('walk_positive_closure', 'closure'), ('walk_join', 'join'), ('walk_positive_join', 'join'),
+                        ('walk_option', 'option'), ('walk_lookahead', 'la'), ('walk_negative_lookahead', 'la'),
+                        ('walk_group', 'group'), ('walk_skip_to', 'skipto'), ('walk_named', 'named'),
+                        ('walk_named_list', 'named'), ('walk_override', 'override'), ('walk_override_list', 'override'),
+                        ('walk_call', 'call'), ('walk_token', 'token'), ('walk_eof', '_eof'), ('walk_eol', '_eof'),
+                        ('walk_void', '_v'), ('walk_cut', '_cut'), ('walk_fail', '_f'), ('walk_dot', '_dot'),
+                        ('walk_empty_closure', '_v'), ('walk_rule_include', 'include'), ('walk_default', 'node'),
+                        ('walk_constant', 'constant'), ('walk_alert', 'alert'), ('walk_rule', 'rule'), ('walk_based_rule', 'rule'), ('walk_choice', 'choice'), ('walk_sequence', 's')):
+        # well-formedness of the model (what the grammar reader and the ANTLR translator build): a choice has an option and a
+        # sequence an element -- a programmatically built `Sequence([])` is outside it (its block of rails is empty)
+        req = {'walk_choice': ['len(choice.options) >= 1'], 'walk_sequence': ['len(s.sequence) >= 1']}.get(meth, [])
+        contract(reg, f'{W}:RailroadNodeWalker.{meth}', P, sig(param), ret='arrlist[str]', theories=T, modifies=[], requires=req,
+                 ensures=list(post), merge_ifs=True)
+    reg.opaque_attrs[('RailWalker', 'walk_box')] = ('contract', f'{W}:RailroadNodeWalker.walk_box')
